@@ -653,6 +653,33 @@ let cmd_gcb (args : string list) : string =
      | _ -> "err undecodable")
   | _ -> "err badcmd"
 
+(* ---------- Item::integrate at block level (Crdt/YataBlocks.v): one incoming block into one sequence ---------- *)
+(* the sequence = the blocks of the document's full state (with content) picked in document order by the ids the hook lists *)
+let cmd_yib (args : string list) : string =
+  match args with
+  | ["step"; full; seq; upd] ->
+    let (fb, ub) = (bytes_of_hex full, bytes_of_hex upd) in
+    (match decode_update_v1 (fuel_for fb) fb, decode_update_v1 (fuel_for ub) ub with
+     | Ok (u, _), Ok (inc, _) ->
+       let st = wbf_resolve_parents (wbf_store_of u) in
+       let find (i : id) = List.find_map (fun (c, bs) -> if c <> i.cl then None else List.find_map (fun (b, d) -> match b with BItem (j, _, _, _, _, _) when j.ck = i.ck -> Some { yib_b = b; yib_del = d } | _ -> None) bs) st in
+       let ids = gcb_parse_ids seq in
+       let s = List.map find ids in
+       if List.exists (fun x -> x = None) s then "skip sequence-block-not-in-the-full-state" else
+       let s = List.filter_map (fun x -> x) s in
+       let items = List.concat_map (fun (_, bs) -> List.filter (fun b -> match b with BItem _ -> true | _ -> false) bs) inc.u_blocks in
+       let others = List.concat_map (fun (_, bs) -> List.filter (fun b -> match b with BItem _ -> false | _ -> true) bs) inc.u_blocks in
+       (match items, others with
+        | [BItem (i, o, ro, p, ps, c) as b], [] when ps = None ->
+          let nb = { yib_b = b; yib_del = (match im_contains inc.u_ds i.cl i.ck with Some true -> true | _ -> false) } in
+          let hyp = " seq_ok=" ^ b01 (yib_seq_ok s) ^ " fresh=" ^ b01 (yib_fresh s nb) in
+          (match yib_integrate_off s nb N0 false with
+           | Yib_ok s' -> "ok " ^ String.concat "," (List.map (fun (d : ditem) -> print_ck (d.d_op.oid.cl, d.d_op.oid.ck) ^ (if d.d_del then "-" else "+")) (yib_expand s')) ^ hyp
+           | Yib_fail t -> "fail " ^ hex_of_n t ^ hyp)
+        | _ -> "skip not-exactly-one-sequence-item")
+     | _ -> "err undecodable")
+  | _ -> "err badcmd"
+
 (* ---------- codecs ---------- *)
 let print_idm (v : (n * ((n * n) * ((n list * any) option) list) list) list) : string =
   let pa = function None -> "?" | Some (nm, vl) -> rawhex nm ^ "=" ^ print_any vl in
@@ -974,6 +1001,7 @@ let dispatch (line : string) : string =
   | "SNP" :: args -> cmd_snp args
   | "STK" :: args -> cmd_stk args
   | "GCB" :: args -> cmd_gcb args
+  | "YIB" :: args -> cmd_yib args
   | "DEC" :: args -> cmd_dec args
   | "ENC" :: args -> cmd_enc args
   | ["PING"] -> "ok pong"
